@@ -1,4 +1,7 @@
 import BiotiteModel.Proofs.C12Fasta
+import BiotiteModel.Proofs.C12Fastq
+import BiotiteModel.Proofs.C12Loc
+import BiotiteModel.Proofs.C12Gff
 import BiotiteModel.Gen.C12
 /-!
 # C12 — property theorems (sequence file formats return what was written)
@@ -32,7 +35,7 @@ theorem C12_fasta_normalised (es : List (Str × Str)) (w cpl : Nat) (hw : 1 ≤ 
 
 /-- An empty file cannot be read back (`InvalidFileError`), it is never mistaken for entries. -/
 theorem C12_fasta_empty (cpl : Nat) : fastaRead (textRoundTrip []) cpl = .error .invalidFile := by
-  decide
+  rfl
 
 /-- **Edit consistency (FASTA).**  After `__setitem__` / `__delitem__` the entry index of the file
 object is exactly what re-indexing its text gives (the repaired `__setitem__` keys the entry by
@@ -52,12 +55,166 @@ theorem C12_edit_fasta_set_spec (f f' : Fasta) (h seq : Str) (items : List (Str 
     fastaItems f' = .ok (items ++ [(normHeader h, seq)]) :=
   fasta_set_fresh_items' f f' h seq items hinv hs hc hfresh hset hit
 
+
+/-! ## FASTQ -/
+
+/-- **Offset arithmetic.**  For every offset representable in `int8` and every score that maps to
+a printable non-blank ASCII character, decoding the encoded score string gives the scores back;
+the string has one character per score and no character `strip()` would remove. -/
+theorem C12_fastq_offset (off : Int) (hoff : -128 ≤ off ∧ off ≤ 127) (qs : List Int)
+    (h : ∀ q ∈ qs, ScoreOk off q) :
+    ∃ s, encodeScores off qs = .ok s ∧ decodeScores off s = .ok qs ∧ s.length = qs.length ∧
+         ∀ c ∈ s, 33 ≤ c.toNat ∧ c.toNat ≤ 126 :=
+  fastq_offset off hoff qs h
+
+/-- **The length-driven state machine is insensitive to `@` / `+` at line starts inside score
+blocks.**  One entry written under *any* wrapping of the sequence (`sc`) and of the score string
+(`qc`) — there is no hypothesis at all on the score characters — is recognised as exactly one
+entry with the right line ranges, and parsing continues in the idle state after it. -/
+theorem C12_fastq_state_machine (id seq sq : Str) (sc qc rest : List Str) (i : Nat)
+    (hseq : QSeqOk seq) (hsc : Chunking seq sc) (hqc : Chunking sq qc) (hlen : sq.length = seq.length) :
+    qFind .idle i (qBlock id sc qc ++ rest) =
+      match qFind .idle (i + qc.length + sc.length + 2) rest with
+      | .ok es => .ok ((id, i + 1, i + 1 + sc.length, i + 2 + sc.length, i + 2 + sc.length + qc.length) :: es)
+      | .error e => .error e :=
+  qFind_block id seq sq sc qc rest i hseq hsc hqc hlen
+
+/-- **FASTQ round trip**, every supported offset, `chars_per_line` none or any width ≥ 1:
+non-empty sequences with in-range scores set into an empty file, the text re-read, give the same
+entries (identifier, sequence, scores) in the same order. -/
+theorem C12_fastq (off : Int) (hoff : -128 ≤ off ∧ off ≤ 127) (cpl cpl' : Option Nat)
+    (hcpl : ∀ w, cpl = some w → 1 ≤ w)
+    (es : List (Str × Str × List Int)) (hne : es ≠ [])
+    (hid : ∀ e ∈ es, QIdOk e.1) (hseq : ∀ e ∈ es, QSeqOk e.2.1) (hlen : ∀ e ∈ es, e.2.1.length = e.2.2.length)
+    (hq : ∀ e ∈ es, ∀ q ∈ e.2.2, ScoreOk off q) (hnd : (es.map (·.1)).Nodup) :
+    ∃ f0 f, es.foldlM (fun f e => fastqSet f e.1 e.2.1 e.2.2) (Fastq.empty off cpl) = .ok f0 ∧
+            fastqRead (textRoundTrip f0.lines) off cpl' = .ok f ∧ fastqItems f = .ok es :=
+  fastq_roundtrip off hoff cpl cpl' hcpl es hne hid hseq hlen hq hnd
+
+/-- **Edit consistency (FASTQ)**: after `__setitem__` / `__delitem__` the entry index equals a
+re-index of the text — also when the text held the same identifier twice. -/
+theorem C12_edit_consistent_fastq (f f' : Fastq) (id seq : Str) (qs : List Int)
+    (hinv : fastqFind f.lines = .ok f.entries) (hseq : QSeqOk seq) :
+    (fastqSet f id seq qs = .ok f' → fastqFind f'.lines = .ok f'.entries) ∧
+    (fastqDel f id = .ok f' → fastqFind f'.lines = .ok f'.entries) :=
+  ⟨fastq_set_inv f f' id seq qs hinv hseq, fastq_del_inv f f' id⟩
+
+/-- … and the mapping view follows the dictionary specification for a new key. -/
+theorem C12_edit_fastq_set_spec (f : Fastq) (id seq : Str) (qs : List Int) (items : List (Str × Str × List Int))
+    (hinv : fastqFind f.lines = .ok f.entries) (hseq : QSeqOk seq)
+    (hoff : -128 ≤ f.off ∧ f.off ≤ 127) (hq : ∀ q ∈ qs, ScoreOk f.off q)
+    (hlen : seq.length = qs.length) (hfresh : f.entries.lookup (normHeader id) = none)
+    (hcpl : ∀ w, f.cpl = some w → 1 ≤ w) (hitems : fastqItems f = .ok items) :
+    ∃ f', fastqSet f id seq qs = .ok f' ∧ fastqItems f' = .ok (items ++ [(normHeader id, seq, qs)]) :=
+  fastq_set_items_fresh f id seq qs items hinv hseq hoff hq hlen hfresh hcpl hitems
+
+/-! ## GenBank locations -/
+
+/-- **Location print/parse round trip** for every expressible location list: single, joined,
+complemented, `<` / `>`, `.` / `^`, single-base (with `>`, `<…>`: the repaired printer), negative
+positions.  `Expressible` = `first ≤ last`, no MISS_LEFT/MISS_RIGHT, not both UNK_LOC and BETWEEN. -/
+theorem C12_loc_roundtrip (ls : List Loc) (hne : ls ≠ []) (h : ∀ l ∈ ls, Expressible l) :
+    parseLocs (printLocs ls) = some ls :=
+  parseLocs_printLocs ls hne h
+
+/-- decimal integers: `int(str(i)) = i`. -/
+theorem C12_int_roundtrip (i : Int) : readInt (showInt i) = some i := readInt_showInt i
+
+
+/-! ## GFF3 -/
+
+/-- `_NOT_QUOTED` of the **current source** (regenerated on every run) contains neither `%` nor a
+column / attribute delimiter (TAB LF CR `;` `=` `&` `,`), its only whitespace is the blank, and
+`_create_line` passes all three text columns through `quote` (the `type` column since the fix). -/
+theorem C12_gen_not_quoted :
+    SafeOk Gen.C12.notQuoted ∧ SafeSpaceOk Gen.C12.notQuoted ∧
+    Gen.C12.quotedColumns = ["seqid", "source", "type"] := by
+  refine ⟨by unfold SafeOk; decide, ?_, by decide⟩
+  intro b hb hsp
+  have hm : b ∈ Gen.C12.notQuoted := by simpa using hb
+  have key : ∀ b ∈ Gen.C12.notQuoted, isSpace (Char.ofNat b) = true → b = 32 := by decide
+  exact key b hm hsp
+
+/-- **Percent-quoting**: `unquote (quote s) = s` (as UTF-8 bytes; the final decoding is the
+trusted codec) for *every* string, and no delimiter survives in `quote s`: every output
+character is ASCII, none is TAB LF CR `;` `=` `&` `,`, and the only whitespace is a literal blank. -/
+theorem C12_gff_quote (s : Str) :
+    unquoteB (quote Gen.C12.notQuoted s) = utf8 s ∧
+    (∀ c ∈ quote Gen.C12.notQuoted s, c.toNat < 128 ∧ c.toNat ∉ gffDelims) ∧
+    (∀ c ∈ quote Gen.C12.notQuoted s, isSpace c = true → c = ' ') := by
+  obtain ⟨hs, hsp, _⟩ := C12_gen_not_quoted
+  exact ⟨unquoteB_quote _ hs.1 s, quoteB_no_delim _ hs _ (gff_utf8_lt s), quoteB_space _ hsp _ (gff_utf8_lt s)⟩
+
+/-- **GFF3 line round trip**: whatever `_create_line` accepts is parsed back by `__getitem__` to
+the same nine columns (text columns stripped, as UTF-8 bytes), for all strings in seqid / source /
+type / attribute keys and values — provided attribute keys are distinct and the last attribute
+value does not end in whitespace (`GffLastOk`: the reader strips the whole line, known finding). -/
+theorem C12_gff_line (e : GffEntry Str) (line : Str) (hline : createLine Gen.C12.notQuoted e = .ok line)
+    (hscore : ∀ t, e.score = some t → t ≠ ['.'] ∧ t ≠ [] ∧ ∀ c ∈ t, c ≠ tab ∧ isSpace c = false)
+    (hkeys : (e.attrs.map (fun kv => utf8 kv.1)).Nodup) (hlast : GffLastOk e) :
+    parseLine line = .ok e.bytes :=
+  gff_line_roundtrip_of_entry _ C12_gen_not_quoted.1 readInt_showInt showInt_chars showInt_ne_nil
+    e line hline hscore hkeys hlast
+
+/-- **Edit consistency (GFF3)**: `append`, `insert`, `__setitem__`, `__delitem__`,
+`append_directive` keep `(entries, directives, has_fasta) = _index_entries(lines)`; the lines
+`_create_line` produces qualify as entry lines unless the seqid starts with `#` (known finding). -/
+theorem C12_edit_consistent_gff (g g' : Gff) (i : Int) (line d text : Str)
+    (hinv : g.idx = gffIndex g.lines) (hl : IsEntryLine line) :
+    (gffAppend g line = .ok g' → g'.idx = gffIndex g'.lines) ∧
+    (gffInsert g i line = .ok g' → g'.idx = gffIndex g'.lines) ∧
+    (gffSet g i line = .ok g' → g.idx.hasFasta = false → g'.idx = gffIndex g'.lines) ∧
+    (gffDel g i = .ok g' → g'.idx = gffIndex g'.lines) ∧
+    (gffAppendDirective g d text = .ok g' → g.idx.hasFasta = false → text ≠ "FASTA".toList →
+      g'.idx = gffIndex g'.lines) :=
+  ⟨gff_append_inv g g' line hinv hl, gff_insert_inv g g' i line hinv hl,
+   fun h hnf => gff_set_inv g g' i line hinv hnf hl h, gff_del_inv g g' i,
+   fun h hnf ht => gff_append_directive_inv g g' d text hinv hnf ht h⟩
+
+theorem C12_gff_created_line_is_entry (e : GffEntry Str) (line : Str)
+    (h : createLine Gen.C12.notQuoted e = .ok line) (hhash : (strip e.seqid).head? ≠ some '#') :
+    IsEntryLine line :=
+  createLine_isEntryLine _ C12_gen_not_quoted.1 e line h hhash
+
+/-! ## Obligations on the tables regenerated from the source on every run -/
+
+/-- `_OFFSETS` (fastq/file.py): every format offset fits `int8` and maps score 0 to a printable,
+non-blank character, and the five format names are present. -/
+theorem C12_gen_fastq_offsets :
+    (∀ p ∈ Gen.C12.fastqOffsets, -128 ≤ p.2 ∧ p.2 ≤ 127 ∧ ScoreOk p.2 0) ∧
+    Gen.C12.fastqOffsets.lookup "Sanger" = some 33 ∧ Gen.C12.fastqOffsets.lookup "Illumina-1.8" = some 33 ∧
+    Gen.C12.fastqOffsets.lookup "Solexa" = some 64 ∧ Gen.C12.fastqOffsets.lookup "Illumina-1.3" = some 64 ∧
+    Gen.C12.fastqOffsets.lookup "Illumina-1.5" = some 64 := by
+  unfold ScoreOk; decide
+
+/-- GenBank column constants: the feature key column lies before the qualifier column and leaves
+room for a 15-character key; an ORIGIN line holds `chunks × chunk` symbols. -/
+theorem C12_gen_genbank_columns :
+    Gen.C12.keyStart + 16 = Gen.C12.qualStart ∧
+    Gen.C12.symbolsPerLine = Gen.C12.symbolsPerChunk * Gen.C12.chunksPerLine ∧
+    0 < Gen.C12.symbolsPerChunk ∧ 0 < Gen.C12.chunksPerLine := by
+  decide
+
 /-! ## Non-vacuity -/
 
 example : HeaderOk "a >b;c".toList ∧ SeqOk "ACG*-N".toList := by
-  refine ⟨⟨by decide, ?_, ?_⟩, ?_⟩ <;> decide
+  unfold HeaderOk NoEdgeSpace SeqOk; decide
 
 example : (fastaSet (Fasta.empty 3) " a b\n".toList "ACGTA".toList).map (·.lines) =
     .ok [">a b".toList, "ACG".toList, "TA".toList] := by decide
+
+example : Expressible ⟨5, 5, false, { br := true }⟩ ∧ printLocs [⟨5, 5, false, { br := true }⟩] = ">5".toList := by
+  unfold Expressible; decide
+
+example : parseLocs "join(complement(<5..>9),12,7^8)".toList =
+    some [⟨5, 9, true, { bl := true, br := true }⟩, ⟨12, 12, false, {}⟩, ⟨7, 8, false, { btw := true }⟩] := by decide
+
+example : fastqFind ["@r".toList, "ACGT".toList, "+".toList, "@+".toList, "+@".toList] = .ok [("r".toList, 1, 2, 3, 5)] := by
+  decide
+
+example : quote Gen.C12.notQuoted "a%41b;c=d\te".toList = "a%2541b%3Bc%3Dd%09e".toList := by decide
+
+example : (createLine Gen.C12.notQuoted ⟨"chr 1".toList, "a;b".toList, "t%41".toList, 1, 99, none, some true, some 0,
+    [("ID".toList, "x=1,2".toList)]⟩).map String.ofList = .ok "chr 1\ta%3Bb\tt%2541\t1\t99\t.\t-\t0\tID=x%3D1%2C2" := by decide
 
 end BiotiteModel.C12
